@@ -449,3 +449,18 @@ def both_edges_family():
             for l, r in [("x", "/y"), ("x", "*y"), ("", "/y"), ("", "*y"), ("x/", "y"), ("x*", "y"), ("x", "/**/y"), ("x", "y"), ("c/", "/y"), ("", "")]:
                 out += [l + "{" + body + ",b}" + r, l + "{b," + body + "}" + r, l + "{c,{" + body + ",b}}" + r, l + "<" + body + ":1,3>" + r]
     return list(dict.fromkeys(out))
+
+
+
+def nested_middle_family():
+    """a tree wildcard at the edge of an alternative of a NESTED alternation whose enclosing branch token sits in the middle
+    (or at either end) of its concatenation: the position handed down through two levels"""
+    inner = ["a/**/", "a/**", "**/a", "/**/a", "**/", "a/**/b"]
+    mid = ["y{%s,b/}", "{%s,b/}", "y{%s,b}", "{%s,b}z", "y{b/,%s}"]
+    outer = ["p{%s}c", "p/<%s:1,2>c", "src/{bin/,lib%s}mod.rs", "p{%s,q}c", "{%s}c", "p{%s}", "p<%s:1>c", "p{{%s}}c"]
+    out = []
+    for o in outer:
+        for m in mid:
+            for i in inner:
+                out.append(o % (m % i))
+    return list(dict.fromkeys(out))
